@@ -49,22 +49,70 @@ class Pre:
         self.toks = [t for t in tokenize.generate_tokens(io.StringIO(src).readline)]
         blines = [ln.encode() for ln in self.lines]
         self.b2c = lambda lno, boff: len(blines[lno - 1][:boff].decode())
+        # logical lines: physical line -> (first, last) physical line of its logical line
+        self.logical = {}
+        start = None
+        for t in self.toks:
+            if t.type in (tokenize.NL, tokenize.COMMENT, tokenize.INDENT, tokenize.DEDENT, tokenize.ENDMARKER):
+                continue
+            if start is None:
+                start = t.start[0]
+            if t.type == tokenize.NEWLINE:
+                for ln in range(start, t.start[0] + 1):
+                    self.logical[ln] = (start, t.start[0])
+                start = None
         # per line: has code token?, comment token
         self.code_lines = set()
         self.comment_on = {}
         for t in self.toks:
             if t.type == tokenize.COMMENT:
                 self.comment_on[t.start[0]] = t
-            elif t.type not in (tokenize.NL, tokenize.NEWLINE, tokenize.INDENT, tokenize.DEDENT, tokenize.ENDMARKER):
+            elif t.type not in (tokenize.NL, tokenize.NEWLINE, tokenize.INDENT, tokenize.DEDENT, tokenize.ENDMARKER) \
+                    and not (t.type == tokenize.OP and t.string == ';'):
                 for ln in range(t.start[0], t.end[0] + 1):
                     self.code_lines.add(ln)
 
+    def widen_over_parens(self, sl, sc, el, ec):
+        """Extend an expression extent over directly enclosing '(' ... ')' pairs (its own grouping parentheses; a sole
+        call argument's call parentheses are included too, which only widens the upper bound)."""
+        sig = [t for t in self.toks if t.type not in (tokenize.NL, tokenize.NEWLINE, tokenize.INDENT, tokenize.DEDENT, tokenize.COMMENT, tokenize.ENDMARKER)]
+        while True:
+            prev = None
+            nxt = None
+            for t in sig:
+                if t.end <= (sl, sc):
+                    prev = t
+                elif t.start >= (el, ec) and nxt is None:
+                    nxt = t
+            if prev is not None and nxt is not None and prev.type == tokenize.OP and prev.string == '(' and nxt.type == tokenize.OP and nxt.string == ')':
+                (sl, sc), (el, ec) = prev.start, nxt.end
+            else:
+                return sl, sc, el, ec
+
     def extent(self, node):
-        """(sl, sc, el, ec) 1-based lines, char columns; decorators included."""
+        """(sl, sc, el, ec) 1-based lines, char columns; decorators included.  Nodes without own position
+        (match_case, comprehension, withitem, arguments ...): union of the children, widened to whole lines."""
+        if not hasattr(node, 'lineno'):
+            kids = [c for c in ast.walk(node) if hasattr(c, 'lineno')]
+            if not kids:
+                return None
+            sl = min(k.lineno for k in kids)
+            el = max(k.end_lineno for k in kids)
+            if isinstance(node, ast.match_case):
+                kstart = min((k.lineno, self.b2c(k.lineno, k.col_offset)) for k in kids)
+                kw = [t for t in self.toks if t.type == tokenize.NAME and t.string == 'case' and t.start < kstart]
+                if kw:
+                    sl = kw[-1].start[0]
+            first = self.lines[sl - 1]
+            return sl, len(first) - len(first.lstrip()), el, len(self.lines[el - 1])
         sl, sc = node.lineno, self.b2c(node.lineno, node.col_offset)
         if getattr(node, 'decorator_list', None):
             d = node.decorator_list[0]
             sl, sc = d.lineno, 0
+            dstart = (d.lineno, self.b2c(d.lineno, d.col_offset))
+            ats = [t for t in self.toks if t.type == tokenize.OP and t.string == '@' and t.start < dstart]
+            if ats:
+                sl = ats[-1].start[0]
         return sl, sc, node.end_lineno, self.b2c(node.end_lineno, node.end_col_offset)
 
 
@@ -156,8 +204,9 @@ def allowed(pre, op, trivia):
     if elems == 'line_comment':
         # the comment on the header/last line of the node
         sl, sc, el, ec = pre.extent(cont)
-        for ln in range(sl, el + 1):
+        for ln in range(sl, min(len(pre.lines), el + 2) + 1):
             L.add(ln)
+        for ln in range(sl, el + 1):
             c = pre.comment_on.get(ln)
             if c is not None:
                 A.add(c.string)
@@ -175,17 +224,37 @@ def allowed(pre, op, trivia):
             L.add(ln)
 
     stmt_level = bool(elems) and all(isinstance(e, (ast.stmt, ast.ExceptHandler, ast.match_case)) for e in elems)
+    # a slice is one contiguous range: everything between its first and last element is inside the edited extent
+    exts = [x for x in (pre.extent(e) for e in elems) if x is not None]
+    if len(exts) > 1:
+        add_span(min(x[0:2] for x in exts)[0], min(x[0:2] for x in exts)[1], max(x[2:4] for x in exts)[0], max(x[2:4] for x in exts)[1])
     for e in elems:
-        if not hasattr(e, 'lineno'):
-            # nodes without own position (arguments, comprehension, withitem ...): use union of children
-            kids = [c for c in ast.walk(e) if hasattr(c, 'lineno')]
-            if not kids:
+        if isinstance(e, ast.arguments):
+            # arguments own everything between the parentheses of the def / lambda header
+            owner = None
+            pth = [tuple(p) for p in op.get('path', [])]
+            for i in range(len(pth), -1, -1):
+                n_ = resolve(pre.tree, pth[:i])
+                if isinstance(n_, (ast.FunctionDef, ast.AsyncFunctionDef, ast.Lambda)) and n_.args is e:
+                    owner = n_
+                    break
+            if owner is None:
                 continue
-            sl = min(k.lineno for k in kids)
-            el = max(k.end_lineno for k in kids)
-            add_span(sl, 0, el, len(pre.lines[el - 1]))
+            hs = pre.extent(owner)
+            cont_ = owner
+            b = getattr(cont_, 'body', None)
+            hend = (b[0].lineno if isinstance(b, list) and b else b.lineno if hasattr(b, 'lineno') else hs[2])
+            add_span(hs[0], hs[1], hend, 0 if hend > hs[0] else hs[3])
+        x = pre.extent(e)
+        if x is None:
             continue
-        sl, sc, el, ec = pre.extent(e)
+        sl, sc, el, ec = x
+        if isinstance(e, (ast.expr, ast.pattern)):
+            sl, sc, el, ec = pre.widen_over_parens(sl, sc, el, ec)
+        if isinstance(e, ast.arg) and field in ('vararg', 'kwarg'):
+            stars = [t for t in pre.toks if t.type == tokenize.OP and t.string in ('*', '**') and t.end <= (sl, sc)]
+            if stars:
+                sl, sc = stars[-1].start
         add_span(sl, sc, el, ec)
         # own grouping parentheses: comments between '(' and the element / the element and ')' on its lines are
         # already covered by the line range rule above; extend over directly enclosing parens on other lines
@@ -228,7 +297,7 @@ def allowed(pre, op, trivia):
     anc = []
     for i in range(len(path), -1, -1):
         n = resolve(pre.tree, path[:i])
-        if n is not None and hasattr(n, 'lineno'):
+        if n is not None and not isinstance(n, ast.Module) and pre.extent(n) is not None:
             anc.append(n)
     if stmt_level or (not elems and field in ('body', 'orelse', 'finalbody', 'handlers', 'cases')) or op['k'] in ('put_docstr',):
         par = cont if hasattr(cont, 'lineno') else None
@@ -258,6 +327,16 @@ def allowed(pre, op, trivia):
         # expression-level edit: the whole container node may be re-flowed (separators, closing delimiter, operators
         # without own position)
         c2 = cont
+        if isinstance(c2, ast.arguments):
+            for i in range(len(path), -1, -1):
+                n_ = resolve(pre.tree, path[:i])
+                if isinstance(n_, (ast.FunctionDef, ast.AsyncFunctionDef, ast.Lambda)):
+                    hs = pre.extent(n_)
+                    b = n_.body
+                    hend = b[0].lineno if isinstance(b, list) and b else b.lineno
+                    for ln in range(hs[0], hend + 1):
+                        L.add(ln)
+                    break
         if not hasattr(c2, 'lineno'):
             kids = [c for c in ast.walk(c2) if hasattr(c, 'lineno')]
             if kids:
@@ -281,12 +360,22 @@ def allowed(pre, op, trivia):
                 L.add(sibs[lo].end_lineno)
             if hi is not None and hi < len(sibs):
                 L.add(pre.extent(sibs[hi])[0])
+    if isinstance(cont, ast.ExceptHandler) and field == 'type' and cont.name:
+        hs = pre.extent(cont)
+        for t in pre.toks:
+            if t.type == tokenize.NAME and t.string == cont.name and hs[0] <= t.start[0] <= cont.body[0].lineno:
+                A.add(t.string)
     # couplings that validity forces: deleting Raise.exc deletes its cause
     if isinstance(cont, ast.Raise) and field == 'exc' and cont.cause is not None:
         sl, sc, el, ec = pre.extent(cont.cause)
         for t in pre.toks:
             if t.start >= (sl, sc) and t.end <= (el, ec) and is_unique_kind(t):
                 A.add(t.string)
+    for ln in list(L):
+        lg = pre.logical.get(ln)
+        if lg:
+            for k in range(lg[0], lg[1] + 1):
+                L.add(k)
     for n in anc:
         if isinstance(n, ast.Module):
             continue
@@ -297,7 +386,7 @@ def allowed(pre, op, trivia):
             # header lines of a block statement (everything before its first body statement)
             b = getattr(n, 'body', None)
             if isinstance(b, list) and b and hasattr(b[0], 'lineno'):
-                for ln in range(sl, b[0].lineno):
+                for ln in range(sl, b[0].lineno + 1):
                     L.add(ln)
             break
     return A, L
@@ -376,6 +465,32 @@ class C04(Plugin):
             new = new[:a] + s + new[b:]
         return new
 
+    def extra_sig(self):
+        return {'predicates': sorted(getattr(self, 'last_P', ()))}
+
+    def family_flags(self, pre, op):
+        """Input predicates (pre-state + request) naming the known-finding families of C04."""
+        P = set()
+        r = elements_of(pre, op)
+        if r is None:
+            return P
+        elems, cont, field, where = r
+        stmt_level = (isinstance(elems, list) and elems and all(isinstance(e, (ast.stmt, ast.ExceptHandler, ast.match_case)) for e in elems)) \
+            or field in ('body', 'orelse', 'finalbody', 'handlers', 'cases') or op['k'] in ('put_docstr', 'put_line_comment')
+        P.add('stmt_level' if stmt_level else 'expr_level')
+        if not stmt_level and cont is not None:
+            x = pre.extent(cont)
+            if x is None and op.get('path'):
+                par = resolve(pre.tree, [tuple(p) for p in op['path'][:-1]])
+                x = pre.extent(par) if par is not None and not isinstance(par, ast.Module) else None
+            if x is not None:
+                sl, sc, el, ec = x
+                if isinstance(cont, ast.expr):
+                    sl, sc, el, ec = pre.widen_over_parens(sl, sc, el, ec)
+                if any(t.type == tokenize.COMMENT and (sl, sc) <= t.start <= (el, 10 ** 9) for t in pre.toks):
+                    P.add('container_holds_comments')
+        return P
+
     def gen_op(self, rng):
         run = self.run
         cfg = dict(run.cfg, uniq=self.uniq)
@@ -406,6 +521,7 @@ class C04(Plugin):
             return
         opts = O.dec_opts(op.get('opts'))
         trivia = opts.get('trivia', self.default_trivia) if 'trivia' in opts and opts['trivia'] is not None else self.default_trivia
+        self.last_P = self.family_flags(pre, op)
         al = allowed(pre, op, trivia)
         if al is None:
             run.stats['window_unknown'] += 1
@@ -426,10 +542,21 @@ class C04(Plugin):
         cnt = {}
         for t in seen:
             cnt[t] = cnt.get(t, 0) + 1
-        dup = [t for t, c in cnt.items() if c > 1]
+        newtoks = set()
+        code = op.get('code') or {}
+        if code.get('text'):
+            newtoks = set(uniq_tokens(code['text']) or ())
+        if op['k'] == 'put_docstr':
+            newtoks |= {t for t in u_post if t[:1] in '\'"rRbBuU' and t not in pre_set}
+            newtoks |= {t for t in cnt if t[:1] in '\'"rRbBuU'}
+        if op['k'] == 'put_line_comment':
+            newtoks |= {t for t in cnt if t.startswith('#')}
+        dup = [t for t, c in cnt.items() if c > 1 and t not in newtoks]
         if dup:
             raise Violation('token_duplicated', f'{dup[:5]!r} | op={op.get("k")} pre={pre_src[:600]!r} post={post_src[:600]!r}')
-        seen_keep = [t for t in seen if t not in A]
+        excl = newtoks & pre_set  # tokens of the new code that happen to equal an existing token: ambiguous, not compared
+        keep = [t for t in keep if t not in excl]
+        seen_keep = [t for t in seen if t not in A and t not in excl]
         if seen_keep != keep:
             lost = [t for t in keep if t not in cnt]
             if lost:
@@ -440,7 +567,7 @@ class C04(Plugin):
         post_lines = post_src.split('\n')
         j = 0
         for i, ln in enumerate(pre.lines, 1):
-            if i in L or not ln.strip():
+            if i in L or not ln.strip() or not ln.strip().strip(';\\ \t'):
                 continue
             while j < len(post_lines) and post_lines[j] != ln:
                 j += 1
